@@ -142,3 +142,56 @@ func Hook(sock mangos.Socket, r *rec.Recorder, script func(ev string, name strin
 		r.Emit("hookret", "ev", evs, "p", name)
 	})
 }
+
+// IDMap is a concurrency-safe pipe id <-> name table (pipe event hooks run on several goroutines).
+type IDMap struct {
+	mu   sync.Mutex
+	name map[uint32]string
+	id   map[string]uint32
+}
+
+// NewIDMap returns an empty table.
+func NewIDMap() *IDMap { return &IDMap{name: map[uint32]string{}, id: map[string]uint32{}} }
+
+// Set records that pipe id is called name.
+func (m *IDMap) Set(id uint32, name string) {
+	m.mu.Lock()
+	m.name[id] = name
+	m.id[name] = id
+	m.mu.Unlock()
+}
+
+// Name returns the name of id ("" if unknown).
+func (m *IDMap) Name(id uint32) string { m.mu.Lock(); defer m.mu.Unlock(); return m.name[id] }
+
+// Has reports whether id is known.
+func (m *IDMap) Has(id uint32) bool { m.mu.Lock(); defer m.mu.Unlock(); _, ok := m.name[id]; return ok }
+
+// ID returns the id of name and whether it is known.
+func (m *IDMap) ID(name string) (uint32, bool) {
+	m.mu.Lock()
+	defer m.mu.Unlock()
+	v, ok := m.id[name]
+	return v, ok
+}
+
+// BaseIDs remembers the pipe ids in use before a scenario starts (leftovers of hung scenarios).
+func BaseIDs() map[uint32]bool {
+	b := map[uint32]bool{}
+	for _, id := range protocol.VerifIDsInUse() {
+		b[id] = true
+	}
+	return b
+}
+
+// Final records what is still reserved after everything was closed and every timer ran out:
+// pipe ids in use (beyond base) and pipes still listed by the socket.
+func Final(r *rec.Recorder, sock mangos.Socket, base map[uint32]bool) {
+	ids := 0
+	for _, id := range protocol.VerifIDsInUse() {
+		if !base[id] {
+			ids++
+		}
+	}
+	r.Emit("final", "ids", ids, "listed", len(protocol.VerifSocketPipes(sock)))
+}
